@@ -1,4 +1,7 @@
-"""Executor for the comparison layer (C12): interfaces, class specifications, None, foreign objects."""
+"""Executor for the comparison layer (C12): interfaces (docless / with a docstring: `Element.__init__` files a docless
+name with a blank as the docstring and leaves `__name__` None), class specifications, None, foreign objects with and
+without `__name__`/`__module__`, and nameless foreign objects with comparison methods of their own (transparent proxies
+of an interface, constant-answer sentinels such as unittest.mock.ANY)."""
 import operator
 
 OPS = dict(lt=operator.lt, le=operator.le, gt=operator.gt, ge=operator.ge, eq=operator.eq, ne=operator.ne)
@@ -15,6 +18,10 @@ def dec(s):
     r = "" if s == "-" else "".join(chr(int(t)) for t in s.split(","))
     _n[0] += 1
     return sys.intern(r) if _n[0] % 3 == 0 else r
+
+
+def enc(s):
+    return "-" if s == "" else ",".join(str(ord(c)) for c in s)
 
 
 def run(lines, out, args):
@@ -39,6 +46,45 @@ def run(lines, out, args):
                 raise AttributeError(n)
             return object.__getattribute__(self, n)
 
+    class Proxy:
+        """a transparent reference to an interface (proxy, lazy import): no __name__, (in)equality and hash of the target"""
+        __slots__ = ("_target",)
+
+        def __init__(self, target):
+            self._target = target
+
+        def __eq__(self, other):
+            return self._target == other
+
+        def __ne__(self, other):
+            return self._target != other
+
+        def __hash__(self):
+            return hash(self._target)
+
+    class Sentinel:
+        """constant answers: == says `eqv`, != says `not eqv`, the ordering methods say `ordv` (None: NotImplemented)"""
+        __slots__ = ("_eqv", "_ordv")
+
+        def __init__(self, eqv, ordv):
+            self._eqv = eqv
+            self._ordv = ordv
+
+        def __eq__(self, other):
+            return self._eqv
+
+        def __ne__(self, other):
+            return not self._eqv
+
+        def _ord(self, other):
+            return NotImplemented if self._ordv is None else self._ordv
+
+        __lt__ = __le__ = __gt__ = __ge__ = _ord
+        __hash__ = object.__hash__
+
+    def name_report(x):
+        return "ok name=" + ("None" if x.__name__ is None else enc(x.__name__))
+
     for line in lines:
         f = line.split()
         got = "ok"
@@ -49,6 +95,18 @@ def run(lines, out, args):
             elif f[0] == "def":
                 if f[2] == "I":
                     env[f[1]] = InterfaceClass(dec(f[3]), (Interface,), __module__=dec(f[4]))
+                    got = name_report(env[f[1]])
+                elif f[2] == "D":
+                    # an interface with a docstring, given either way the constructor accepts one
+                    if int(f[1]) % 2:
+                        env[f[1]] = InterfaceClass(dec(f[3]), (Interface,), __module__=dec(f[4]), __doc__="doc of %s" % f[1])
+                    else:
+                        env[f[1]] = InterfaceClass(dec(f[3]), (Interface,), {"__doc__": "doc of %s" % f[1]}, __module__=dec(f[4]))
+                    got = name_report(env[f[1]])
+                elif f[2] == "W":
+                    env[f[1]] = Proxy(env[f[3]])
+                elif f[2] == "S":
+                    env[f[1]] = Sentinel(f[3] == "1", None if f[4] == "n" else f[4] == "1")
                 elif f[2] == "M":
                     cls = type(dec(f[3]), (object,), {"__module__": dec(f[4])})
                     keep.append(cls)
@@ -57,7 +115,7 @@ def run(lines, out, args):
                     env[f[1]] = Foreign(dec(f[3]), dec(f[4]))
                 elif f[2] == "P":
                     env[f[1]] = Plain2()
-            elif f[0] == "cmp":
+            elif f[0] in ("cmp", "cmpx"):
                 try:
                     r = OPS[f[1]](env[f[2]], env[f[3]])
                     got = "1" if r is True else "0" if r is False else "nonbool:%r" % (r,)
